@@ -42,14 +42,32 @@ Theorem C05_every_proto_covered_partial : forall w existing l ss,
 Proof. exact singles_go_covers. Qed.
 Print Assumptions C05_every_proto_covered_partial.
 
-(* "no protocluster is listed twice in a candidate" is FALSE of the faithful model (and of the
-   code): on a circular record a hybrid whose joint core crosses the origin lists a contained
-   protocluster twice (recorded finding hybrid_member_repeated) *)
-Theorem C05_no_repeated_member_refuted :
-  exists out c, create_candidates w_protos (Some 12) = Ok out /\ In c out /\
-                ckind c = K_HYBRID /\ nodupb (map pid (cmem c)) = false.
-Proof. exact repeated_member_witness. Qed.
-Print Assumptions C05_no_repeated_member_refuted.
+(* no protocluster is listed twice in a candidate: for every input, any wrap point (positive statement after the
+   repair of finding hybrid_member_repeated: `update_if_contained` skips a cluster that is already in the group;
+   before the repair a hybrid whose joint core crosses the origin listed a contained protocluster twice) *)
+Theorem C05_no_repeated_member : forall protos w out, create_candidates protos w = Ok out ->
+  forall c, In c out -> NoDup (map pid (cmem c)).
+Proof. exact no_repeated_member. Qed.
+Print Assumptions C05_no_repeated_member.
+
+(* the former witness of hybrid_member_repeated (circular record of length 12; was members 1, 1, 0, 2) *)
+Theorem C05_no_repeated_member_witness :
+  exists out, create_candidates w_protos (Some 12) = Ok out /\
+              map (fun c => (ckind c, map pid (cmem c))) out = [(K_HYBRID, [1; 0; 2])].
+Proof. exact repeated_member_witness_repaired. Qed.
+Print Assumptions C05_no_repeated_member_witness.
+
+(* the former witness of joint_core_wraps_assert (circular record of length 72): the input is still in the class
+   (two hybrid groups with the same coordinates united, joint core connected across the origin, no member core
+   crosses it, protoclusters left unassigned) and the formation now returns, covering every protocluster; before
+   the repair `assert core_group` failed (Err E_Assert) *)
+Theorem C05_joint_core_wraps_returns :
+  class_joint_core_wraps jc_protos (Some 72) = true /\
+  exists out, create_candidates jc_protos (Some 72) = Ok out /\
+              map (fun c => (ckind c, map pid (cmem c))) out
+              = [(K_HYBRID, [1; 0; 3; 5; 2; 4]); (K_SINGLE, [3]); (K_SINGLE, [5]); (K_SINGLE, [4])].
+Proof. exact joint_core_wraps_witness_repaired. Qed.
+Print Assumptions C05_joint_core_wraps_returns.
 
 (* ---- deepening: statements about the whole formation (create_candidates = create_candidates_from_protoclusters) ---- *)
 
@@ -82,8 +100,8 @@ Print Assumptions C05_location_linear.
    returns.  The proof uses the code's own final check (as many distinct members as protoclusters) and
    C05_members_supplied: distinct member ids are ids of supplied protoclusters, and there are as many of them
    as protoclusters, so none is missing - also when several supplied protoclusters share an id.
-   NOT claimed: that the function returns (it raises AssertionError in the recorded class
-   joint_core_wraps_assert); that the final check can never fail is covered by the correspondence only. *)
+   NOT claimed: that the function returns (before the repair of joint_core_wraps_assert it raised AssertionError
+   in that class); that the final check can never fail is covered by the correspondence only. *)
 Theorem C05_every_proto_covered : forall protos w out, create_candidates protos w = Ok out ->
   forall p, In p protos -> exists c, In c out /\ inS (pid p) (cmem c).
 Proof. exact every_proto_covered. Qed.
